@@ -486,6 +486,93 @@ func c06EveryThreshold(run *mon.Run) {
 	run.Require(run.Counter("every-threshold.values") >= 100, "threshold sweep incomplete")
 }
 
+// c06ParameterGrid: the documented parameter ranges (size in [2, 254], threshold in [1, size-1], own
+// index in [0, size-1]) decide exactly which calls of the key generation, the two constructors and the
+// stateless reconstruction are refused with an invalid-inputs error; everything inside the ranges is
+// accepted - in particular the corners (2,1), (254,1), (254,253) - and an accepted key generation
+// returns `size` shares.
+func c06ParameterGrid(run *mon.Run) {
+	sizes := []int{-1, 0, 1, 2, 3, 4, 127, 128, 253, 254, 255, 256, 257, 510, 1 << 16, 1<<31 + 2}
+	pool := make([]crypto.PublicKey, 8)
+	for i := range pool {
+		pool[i] = skFromInt(big.NewInt(int64(77 + i))).PublicKey()
+	}
+	sk := skFromInt(big.NewInt(77))
+	seed := bytes.Repeat([]byte{5}, 32)
+	sig, _ := sk.Sign([]byte("m"), crypto.NewExpandMsgXOFKMAC128("grid"))
+	for _, n := range sizes {
+		ths := []int{-1, 0, 1, 2, n / 2, n - 2, n - 1, n, n + 1, 253, 254, 255, 256}
+		for _, t := range ths {
+			inRange := n >= 2 && n <= 254 && t >= 1 && t <= n-1
+			rep := map[string]any{"size": n, "threshold": t}
+			judge := func(api string, err error) {
+				run.Eval(1)
+				if inRange && err != nil {
+					run.Violate("C06:parameter-grid:refuses-legal:"+api, fmt.Sprintf("%s(size=%d, threshold=%d) is inside the documented ranges and returned %v", api, n, t, err), rep)
+				}
+				if !inRange && !crypto.IsInvalidInputsError(err) {
+					run.Violate("C06:parameter-grid:accepts-illegal:"+api, fmt.Sprintf("%s(size=%d, threshold=%d) is outside the documented ranges and returned error %v (an invalid-inputs error is documented)", api, n, t, err), rep)
+				}
+			}
+			if n <= 300 { // (key generation and key lists are linear in size)
+				var sks []crypto.PrivateKey
+				var err error
+				if !run.Guard("BLSThresholdKeyGen", rep, func() { sks, _, _, err = crypto.BLSThresholdKeyGen(n, t, seed) }) {
+					judge("BLSThresholdKeyGen", err)
+					if err == nil && len(sks) != n {
+						run.Violate("C06:parameter-grid:share-count", fmt.Sprintf("BLSThresholdKeyGen(%d,%d) returned %d shares", n, t, len(sks)), rep)
+					}
+				}
+				if n >= 0 {
+					pks := make([]crypto.PublicKey, n)
+					for i := range pks {
+						pks[i] = pool[i%len(pool)]
+					}
+					if !run.Guard("NewBLSThresholdSignatureInspector", rep, func() { _, err = crypto.NewBLSThresholdSignatureInspector(pool[0], pks, t, []byte("m"), "grid") }) {
+						judge("NewBLSThresholdSignatureInspector", err)
+					}
+					for _, me := range []int{-1, 0, n - 1, n, 255, 256} {
+						meOK := me >= 0 && me < n
+						var e error
+						pksMe := append([]crypto.PublicKey{}, pks...)
+						if meOK {
+							pksMe[me] = pool[0] // the participant's own public key share must match its private key
+						}
+						if run.Guard("NewBLSThresholdSignatureParticipant", rep, func() { _, e = crypto.NewBLSThresholdSignatureParticipant(pool[0], pksMe, t, me, sk, []byte("m"), "grid") }) {
+							continue
+						}
+						run.Eval(1)
+						if inRange && meOK && e != nil {
+							run.Violate("C06:parameter-grid:refuses-legal:NewBLSThresholdSignatureParticipant", fmt.Sprintf("size=%d threshold=%d index=%d: %v", n, t, me, e), rep)
+						}
+						if (!inRange || !meOK) && !crypto.IsInvalidInputsError(e) {
+							run.Violate("C06:parameter-grid:accepts-illegal:NewBLSThresholdSignatureParticipant", fmt.Sprintf("size=%d threshold=%d index=%d outside the documented ranges: error %v", n, t, me, e), rep)
+						}
+					}
+				}
+			}
+			// stateless reconstruction: illegal (size, threshold) must be refused before anything else
+			if !inRange {
+				k := min(max(t+1, 1), 300)
+				shares := make([]crypto.Signature, k)
+				signers := make([]int, k)
+				for i := range shares {
+					shares[i], signers[i] = sig, i
+				}
+				var err error
+				if !run.Guard("BLSReconstructThresholdSignature", rep, func() { _, err = crypto.BLSReconstructThresholdSignature(n, t, shares, signers) }) {
+					run.Eval(1)
+					if !crypto.IsInvalidInputsError(err) && !crypto.IsNotEnoughSharesError(err) {
+						run.Violate("C06:parameter-grid:accepts-illegal:BLSReconstructThresholdSignature", fmt.Sprintf("size=%d threshold=%d outside the documented ranges: error %v", n, t, err), rep)
+					}
+				}
+			}
+			run.Count("parameter-grid.points", 1)
+		}
+	}
+	run.Shape("parameter-grid")
+}
+
 func dedupInts(xs []int) []int {
 	seen := map[int]bool{}
 	var out []int
@@ -654,6 +741,7 @@ func C06(run *mon.Run) {
 	wg.Wait()
 	c06CraftedPolynomials(run)
 	c06EveryThreshold(run)
+	c06ParameterGrid(run)
 	run.Require(run.Counter("small-pairs") == int64(len(pairs)), "not every (n,t) pair with n<=7 completed")
 	for _, p := range []string{"ascending-low", "top-block", "descending", "alternating-low-high", "first-largest", "random"} {
 		run.Require(run.Counter("pattern."+p) > 0, "limb pattern not exercised: "+p)
